@@ -95,8 +95,11 @@ func c08MapOrders(c *RunCtx, item *int) {
 	n := 2
 	verifrt.FullPermLimit = 3
 	if c.Thorough() {
-		depth = 2
 		verifrt.FullPermLimit = 4
+	}
+	short := map[string]bool{}
+	for _, t := range c08Targets(1) {
+		short[t] = true
 	}
 	in := pxInitByID("pos")
 	type target struct {
@@ -178,7 +181,11 @@ func c08MapOrders(c *RunCtx, item *int) {
 					}
 				}
 			}
-			explore(nil, base.Trace, 0, depth)
+			d := depth
+			if c.Thorough() && short[text] {
+				d = 2 // two deviations for the programs of length <= 1
+			}
+			explore(nil, base.Trace, 0, d)
 			if points > 0 {
 				c.Sum.Nontrivial++
 			}
@@ -743,7 +750,7 @@ func init() {
 			c08Iterators(c, &item)
 			c08Histories(c, &item)
 			c08Dual(c, &item)
-			c.Sum.Rule = "(i) PX with deviations: 57 target programs (all sequences of length <= 2 over {sw, sb, lw x2, addi x2 (WAW pair), bne} + epilogue) x 33 configurations, plus same-line programs (all sequences of length 3 (quick: 64) / 3..4 (thorough: 320) over three loads and a store to one line) x the MSI configurations with 2..3 (quick) / 2..4 cores: default execution (canonical map orders) vs every execution deviating at <= 1 (quick) / <= 2 (thorough) map-range choice points (all n! orders for maps with <= 3 (quick) / 4 keys, transpositions + rotations + reversal beyond); (ii) comp.Queue.Iterator and ds.StableMapIteration driven by consumers that remove subsets, abandon early and push after abandoning, under a cooperative scheduler with unbounded preemptions, every interleaving; (iii) for every ordered pair (X, Y) of 11 (quick) / 31 short programs, and of the 8 programs of the loop-entered-in-the-middle family (exit branch fed by a missing load, next iteration speculated and flushed), and every configuration: Y after X, Y on a machine built while X's is alive, Y twice on one parsed Application, all equal to Y alone in a fresh OS process; (iv) two machines interleaved at cycle boundaries, every schedule with <= 1 preemption, separate and shared parsed programs, each machine compared with its solo run; oracle = bit-identical (cycles, registers, memory); non-trivial = (program, configuration) pairs with at least one multi-key map range, harnesses with more than one schedule, Y programs with at least one comparable history, and schedules with a preemption"
+			c.Sum.Rule = "(i) PX with deviations: 57 target programs (all sequences of length <= 2 over {sw, sb, lw x2, addi x2 (WAW pair), bne} + epilogue) x 33 configurations, plus same-line programs (all sequences of length 3 (quick: 64) / 3..4 (thorough: 320) over three loads and a store to one line) x the MSI configurations with 2..3 (quick) / 2..4 cores: default execution (canonical map orders) vs every execution deviating at <= 1 map-range choice point (thorough: <= 2 for the programs of length <= 1) (all n! orders for maps with <= 3 (quick) / 4 keys, transpositions + rotations + reversal beyond); (ii) comp.Queue.Iterator and ds.StableMapIteration driven by consumers that remove subsets, abandon early and push after abandoning, under a cooperative scheduler with unbounded preemptions, every interleaving; (iii) for every ordered pair (X, Y) of 11 (quick) / 31 short programs, and of the 8 programs of the loop-entered-in-the-middle family (exit branch fed by a missing load, next iteration speculated and flushed), and every configuration: Y after X, Y on a machine built while X's is alive, Y twice on one parsed Application, all equal to Y alone in a fresh OS process; (iv) two machines interleaved at cycle boundaries, every schedule with <= 1 preemption, separate and shared parsed programs, each machine compared with its solo run; oracle = bit-identical (cycles, registers, memory); non-trivial = (program, configuration) pairs with at least one multi-key map range, harnesses with more than one schedule, Y programs with at least one comparable history, and schedules with a preemption"
 			c.Assume("the Go memory model is not explored: scheduling points are channel operations, iterator loop heads and cycle boundaries")
 		},
 		Replay: c08Replay,
